@@ -23,7 +23,9 @@ from molgri.molecules.transitions import SQRA, DecompositionTool
 PROPERTY = "C14"
 R_GAS = kB * N_A
 _REAL_EIGS = mtr.eigs
-SETTINGS = [("LR", None), ("LM", 0.37), ("SR", 0.01), ("LM", 1e-3)]
+# (which, sigma, tol): tol 1e-5 is the tolerance the shipped workflow configuration passes, 1e-10 a tight one
+SETTINGS = [("LR", None, 1e-10), ("LR", None, 1e-5), ("LM", 0.37, 1e-10), ("LM", 0.37, 1e-5), ("SR", 0.01, 1e-10),
+            ("LM", 1e-3, 1e-10)]
 
 
 def energies(arr, kind):
@@ -97,8 +99,8 @@ def run_case(case):
                     vs.append(viol(pre + tag + "|volumes_zero", "saved volumes contain zeros (unbounded cells): the rate "
                                    "matrix is not defined", case))
                     continue
-                # spectral decomposition
-                if not case.get("decompose") or n < 15:
+                # spectral decomposition (one temperature)
+                if not case.get("decompose") or n < 15 or T != case["Ts"][0]:
                     continue
                 dense_ev = np.linalg.eigvals(Qd)
                 if np.abs(dense_ev.imag).max() > 1e-8 * np.abs(dense_ev).max():
@@ -107,12 +109,14 @@ def run_case(case):
                 if dense_sorted[0] - dense_sorted[1] < 1e-8 * np.abs(dense_sorted).max():
                     continue   # zero eigenvalue not simple: grid not connected, outside the statement
                 normQ = np.abs(dense_sorted).max()
-                for which, sigma in SETTINGS:
+                for which, sigma, tol in SETTINGS:
                     for k in case["ks"]:
                         if n < k + 3:
                             continue
                         for seed in case["seeds"]:
-                            dkey = pre + tag + f"|which={which}|sigma={sigma}|k={k}|seed={seed}"
+                            dkey = (f"C14|solver|which={which}|sigma={sigma}|tol={tol:g}|k={k}|n={n}|" + pre[4:] + tag +
+                                    f"|seed={seed}")
+                            etol = max(1e-6, 50 * tol) * normQ
                             v0 = np.random.Generator(np.random.PCG64(1000 + seed)).standard_normal(n)
 
                             def wrapped(Aop, **kw):
@@ -120,7 +124,7 @@ def run_case(case):
                                 return _REAL_EIGS(Aop, **kw)
                             mtr.eigs = wrapped
                             try:
-                                ev, evec = DecompositionTool(Q).get_decomposition(tol=1e-10, maxiter=100000, which=which,
+                                ev, evec = DecompositionTool(Q).get_decomposition(tol=tol, maxiter=100000, which=which,
                                                                                   sigma=sigma, k=k)
                             except Exception as e:
                                 if type(e).__name__ == "ArpackNoConvergence":
@@ -140,12 +144,21 @@ def run_case(case):
                             if np.any(np.diff(ev) > 1e-12 * normQ):
                                 vs.append(viol(dkey + "|order", "eigenvalues are not sorted in descending order", case,
                                                observed=ev.tolist()))
-                            if np.abs(ev - dense_sorted[:k]).max() > 1e-6 * normQ:
-                                vs.append(viol(dkey + "|eigenvalues", "eigenvalues differ from the top-k of a dense solver",
-                                               case, expected=dense_sorted[:k].tolist(), observed=ev.tolist()))
+                            if np.abs(ev - dense_sorted[:k]).max() > etol:
+                                if n > k + 1 and np.abs(ev - dense_sorted[1:k + 1]).max() <= etol:
+                                    zkey = (f"C14|solver|zero_eigenvalue_skipped|which={which}|sigma={sigma}|tol={tol:g}|k={k}|"
+                                            f"n={n}|" + pre[4:] + tag + f"|seed={seed}")
+                                    vs.append(viol(zkey, "the solver returns eigenvalues 2..k+1: the zero eigenvalue (stationary "
+                                                   "state) is skipped", case, expected=dense_sorted[:k].tolist(),
+                                                   observed=ev.tolist()))
+                                else:
+                                    vs.append(viol(dkey + "|eigenvalues", "eigenvalues differ from the top-k of a dense solver",
+                                                   case, expected=dense_sorted[:k].tolist(), observed=ev.tolist()))
                                 continue
-                            if abs(ev[0]) > 1e-6 * normQ:
+                            if abs(ev[0]) > etol:
                                 vs.append(viol(dkey + "|zero", "largest eigenvalue is not zero", case, observed=float(ev[0])))
+                            if tol > 1e-8:
+                                continue      # eigenvector accuracy is only asserted for the tight tolerance
                             v = evec[:, 0]
                             v = v / v[np.argmax(np.abs(v))]
                             p = pi / pi[np.argmax(np.abs(pi))]
